@@ -272,7 +272,7 @@ def instances(tier):
     # ("term", k): 00 00 terminator followed by k symbolic trailing bytes (6 and 8: room for a whole record header / record behind it)
     endings = [("term", 0), ("term", 2), ("term", 6), ("term", 8), ("eof", 0), ("trunc", 1), ("trunc", 3), ("trunc", 6), ("trunc", 7)]
     for n in (range(0, 3) if q else range(0, 4)):
-        for lens in itertools.product(LENS, repeat=n):
+        for lens in itertools.product(LENS if n < 3 else (0, 1, 2, 4), repeat=n):
             if n == 3 and len(set(lens)) > 2:
                 continue
             for ending in endings:
